@@ -544,6 +544,24 @@ fn partial_constant_cases() -> Vec<Json> {
         push("string", v, &[a, b], "{0} + {1} + {x}", vec![]);
         push("string", v, &[a], "{x} == {0}", vec![]);
     }
+    // compound literals whose parts are all constants (a later part with the name of an earlier one
+    // replaces it, whoever builds the value)
+    for t in [
+        "struct{a := {0}, b := {1}, a := {2}}.a",
+        "struct{a := {0}, a := {1}, a := {2}}.a + {x}",
+        "struct{b := {0}, a := {1}, b := {2}, a := {0}}.b",
+        "struct{a := {0}, b := {1}}.b",
+        "[struct{a := {0}, a := {1}}][0].a",
+        "(struct{a := {0}, a := {1}}, {2}).0.a",
+        "struct{a := struct{b := {0}, b := {1}}, a := struct{b := {2}, b := {0}}}.a.b",
+        "struct{a := ({0}, {1}), a := ({1}, {2})}.a.0",
+        "({0}, {1}, {2}).1",
+        "[{0}, {1}, {2}][1]",
+        "[{0}; 3][2] + [{1}, {2}][-1]",
+        "struct{a := {0} + {1}, a := {1} * {2}}.a",
+    ] {
+        push("int", "5", &["1", "10", "2"], t, vec![]);
+    }
     for (v, a, b) in [("[1]", "[]", "[2, 3]"), ("[0; 0]", "[4]", "[]")] {
         push("[int]", v, &[a, b], "{x} + {0} + {1}", vec![]);
         push("[int]", v, &[a, b], "{0} + {x} + {1}", vec![]);
